@@ -42,6 +42,7 @@ type FnCtx struct {
 	oblCount   map[string]int
 	lastCall   string
 	letVals    map[string]Val
+	paramVars  map[string]Val
 	lastSort   *sortInfo
 	preDeferSite string
 	noClosure  bool
@@ -1808,7 +1809,7 @@ func (fc *FnCtx) callIsLight(c *ssa.CallCommon, depth int) bool {
 		return !con.ModAll && !con.ModHeap && len(con.Modifies) == 0
 	}
 	if _, ok := builtinModels[name]; ok {
-		return len(builtinMods[name]) == 0 || name == "(*github.com/tokenized/pkg/wire.BlockHeader).BlockHash"
+		return len(builtinMods[name]) == 0 || name == "(*github.com/tokenized/pkg/wire.BlockHeader).BlockHash" || strings.HasPrefix(name, "(*sync.")
 	}
 	if depth < 3 && fc.inlinableStatic(f) {
 		for _, b := range f.Blocks {
